@@ -243,12 +243,12 @@ type c29Op struct {
 }
 
 type c29Slot struct {
-	Index   int
-	Mode    core.SynchronizationMode
-	Paused  bool // created paused
-	A, B    *scripted.Root
-	mu      sync.Mutex
-	id      string
+	Index  int
+	Mode   core.SynchronizationMode
+	Paused bool // created paused
+	A, B   *scripted.Root
+	mu     sync.Mutex
+	id     string
 }
 
 func (s *c29Slot) ID() string {
@@ -319,7 +319,7 @@ func newHistory(h *scripted.Harness, rng *rand.Rand, idx int, quick bool) *histo
 		return d
 	}
 	for s := 0; s < nslots; s++ {
-		slot := &c29Slot{Index: s, Mode: c11Modes[rng.Intn(4)], Paused: rng.Intn(10) < 3}
+		slot := &c29Slot{Index: s, Mode: c11Modes[rng.Intn(4)], Paused: rng.Intn(10) < 2}
 		content := func() *core.Entry {
 			m := map[string]*core.Entry{}
 			for k := 0; k < 3+rng.Intn(2); k++ {
@@ -376,13 +376,13 @@ func newHistory(h *scripted.Harness, rng *rand.Rand, idx int, quick bool) *histo
 		hs.slots = append(hs.slots, slot)
 	}
 	goroutines := 2 + rng.Intn(3)
-	kinds := []string{"Pause", "Pause", "Pause", "Resume", "Resume", "Resume", "FlushWait", "FlushWait", "FlushWait", "Flush", "Reset", "Reset", "List", "Sleep", "Sleep", "Terminate"}
+	kinds := []string{"Pause", "Pause", "Pause", "Resume", "Resume", "Resume", "FlushWait", "FlushWait", "FlushWait", "Flush", "Reset", "Reset", "List", "Sleep", "Sleep", "Sleep", "Terminate"}
 	for g := 0; g < goroutines; g++ {
 		var prog []c29Op
 		for k := 4 + rng.Intn(8); k > 0; k-- {
 			op := c29Op{Kind: kinds[rng.Intn(len(kinds))], Slot: rng.Intn(nslots)}
-			if op.Kind == "Terminate" && rng.Intn(2) == 0 {
-				op.Kind = "Pause"
+			if op.Kind == "Terminate" && rng.Intn(3) > 0 {
+				op.Kind = []string{"FlushWait", "Resume"}[rng.Intn(2)]
 			}
 			if op.Kind == "Sleep" {
 				op.Sleep = time.Duration(rng.Intn(8000)) * time.Microsecond
@@ -677,10 +677,10 @@ func (hs *history) judge(events []scripted.Event, res *c29Result) {
 		}
 		// (a)/(b) paused intervals.
 		type pausePoint struct {
-			p          uint64
-			start      uint64
-			origin     string
-			judgeable  bool
+			p         uint64
+			start     uint64
+			origin    string
+			judgeable bool
 		}
 		var points []pausePoint
 		for _, c := range evs {
@@ -797,8 +797,16 @@ func (hs *history) judge(events []scripted.Event, res *c29Result) {
 			}
 			for _, e := range evs {
 				if e.Op == "obs.files-after-terminate" {
-					add("d-files-left-after-terminate", map[string]string{"files": e.Note},
-						"after Terminate returned success the persisted state was still on disk: "+e.Note,
+					// A Reset that succeeded while overlapping this Terminate is
+					// recorded in the signature: it identifies one specific defect.
+					concurrentReset := false
+					for _, c := range cmds {
+						if c.Op == "cmd.Reset" && c.Err == "" && c.Start < t.End && (c.End == 0 || c.End > t.Start) {
+							concurrentReset = true
+						}
+					}
+					add("d-files-left-after-terminate", map[string]string{"files": e.Note, "concurrent_reset": fmt.Sprint(concurrentReset)},
+						"after Terminate returned success the persisted state was still on disk: "+e.Note+fmt.Sprintf(" (a successful Reset overlapped the Terminate: %v)", concurrentReset),
 						map[string]any{"session": id, "journal": brief(events, id, 100)})
 					break
 				}
@@ -1028,10 +1036,22 @@ func c29ResetOnDisk(r *vk.Run) {
 			fmt.Printf("reset-on-disk case %d: %s failed: %v\n", i, step, err)
 			r.Inconclusive("reset-on-disk-" + step + "-failed")
 		}
+		// A session that was just created or resumed accepts flushes only once its
+		// run loop has reached the synchronizing state.
+		flush := func() error {
+			var err error
+			for try := 0; try < 5000; try++ {
+				if err = h.Manager().Flush(ctx, sel, "", false); err == nil || !strings.Contains(err.Error(), "not currently able to synchronize") {
+					return err
+				}
+				time.Sleep(2 * time.Millisecond)
+			}
+			return err
+		}
 		func() {
 			defer cancel()
 			defer h.Manager().Terminate(context.Background(), sel, "")
-			if err := h.Manager().Flush(ctx, sel, "", false); err != nil {
+			if err := flush(); err != nil {
 				fail("first-flush", err)
 				return
 			}
@@ -1050,7 +1070,7 @@ func c29ResetOnDisk(r *vk.Run) {
 				}
 			}
 			if rng.Intn(2) == 0 {
-				if err := h.Manager().Flush(ctx, sel, "", false); err != nil {
+				if err := flush(); err != nil {
 					fail("second-flush", err)
 					return
 				}
@@ -1088,7 +1108,7 @@ func c29ResetOnDisk(r *vk.Run) {
 					return
 				}
 			}
-			if err := h.Manager().Flush(ctx, sel, "", false); err != nil {
+			if err := flush(); err != nil {
 				fail("flush-after-reset", err)
 				return
 			}
